@@ -2,7 +2,9 @@ pub mod c01;
 pub mod c06;
 pub mod c07;
 pub mod c08;
+pub mod c09;
 pub mod c13;
+pub mod c14;
 pub mod c15;
 pub mod semantic;
 pub mod semprops;
@@ -22,6 +24,8 @@ pub fn by_id(id: &str) -> Option<Box<dyn Property>> {
         "C15" => Some(Box::new(c15::C15)),
         "C06" => Some(Box::new(c06::C06)),
         "C10" => Some(Box::new(c06::C10)),
+        "C09" => Some(Box::new(c09::C09)),
+        "C14" => Some(Box::new(c14::C14)),
         "C07" => Some(Box::new(c07::C07)),
         "C08" => Some(Box::new(c08::C08)),
         _ => None,
